@@ -225,7 +225,7 @@ class Ctx:
             "property_id": self.pid, "tier": self.tier, "seed": self.seed, "level": "proof",
             "coverage": {
                 "obligations": max(obligations, 0), "discharged": discharged,
-                "checker_cmd": "cd /verif/lean && lake build Arp.Props.%s && lake env lean --run Audit.lean Arp.Props.%s Arp.%s" % (self.pid, self.pid, self.pid),
+                "checker_cmd": "cd /verif/lean && lake build %s && lake env lean --run Audit.lean %s <theorem names of lean/obligations.json>" % (getattr(self, "module", "Arp.Props." + self.pid), getattr(self, "module", "Arp.Props." + self.pid)),
                 "trusted_base": TRUSTED_BASE,
                 "theorems": [{"name": n, "ok": ok, "axioms": ax} for n, ok, ax in self.obligations],
                 "full_strength": full_strength, "unproven_clauses": list(unproven),
